@@ -79,3 +79,11 @@ def build(mir, cube):
     return c05.build(mir, cube)
 
 def differential(mir, seed, count): return c05.differential(mir, seed, count)
+
+def native_probes():
+    """regression probe for the repaired defect recorded in known_findings.jsonl (fixed: property=C03 298524d): a loader that redirects a
+    specifier to itself. The repaired behaviour: the follow-up loads go out until the redirect limit, the specifier ends as a
+    TooManyRedirects error, nothing is left pending and serialisation shows no internal-error marker."""
+    op = {'op': 'try_load', 'serialize': True, 'asset': False, 'checksum_known': False, 'answers': ['SelfRedirect'] * 14, 'parse_ok': True, 'in_dynamic_branch': False,
+          'redirect_count': 0, 'max_redirects': 10, 'route': 'plain'}
+    return [('loader-redirects-a-specifier-to-itself', {'world': {'positions': True}, 'ops': [op]}, {'result': 'err:Load:TooManyRedirects', 'internal_error_in_serialisation': False})]
